@@ -126,11 +126,20 @@ def e2e(kind, n, bs_srv, bs_cli, off, oldlen, seg):
     oldlen, seg = hb.conc(oldlen, -1, 6), hb.conc(seg, 0, 4)
     loop = hb.new_loop()
 
+    sent = {}
+
     def segment(tr, data):
-        # the network splits every write into pieces of `seg` bytes
+        # the network splits every write into pieces of `seg` bytes; on data connections successive pieces arrive
+        # 3 virtual ms apart (seg >= 1), so that the reader sees the stream in instalments, not in one piece
+        if tr.local[1] == 21 or tr.remote[1] == 21:
+            return [(data, 1)]  # control channel: whole lines, 1 ms (reply framing under segmentation is C06's subject)
+        base = 1
+        if seg >= 1:
+            sent[id(tr)] = sent.get(id(tr), 0) + 1
+            base = 1 + 3 * sent[id(tr)]
         if seg <= 0 or len(data) <= seg:
-            return [(data, 1)]
-        return [(data[i:i + seg], 1 + i) for i in range(0, len(data), seg)]
+            return [(data, base)]
+        return [(data[i:i + seg], base + 3 * i) for i in range(0, len(data), seg)]
 
     net = simnet.SimNet(seg=segment)
     srv.asyncio = st._AsyncioProxy(net)
@@ -156,6 +165,18 @@ def e2e(kind, n, bs_srv, bs_cli, off, oldlen, seg):
             async with c.download_stream("f", offset=off) as s:
                 async for block in s.iter_by_block(bs_cli):
                     got += block
+        elif kind == "download_read":
+            # the other two ways a caller drains a data stream: read() to end of stream, and read(n) until b""
+            async with c.download_stream("f", offset=off) as s:
+                if bs_cli == 1:
+                    got = await s.read()
+                else:
+                    got = b""
+                    while True:
+                        block = await s.read(bs_cli + 5)
+                        if not block:
+                            break
+                        got += block
         else:
             factory = c.upload_stream if kind == "upload" else c.append_stream
             try:
@@ -180,7 +201,7 @@ def e2e(kind, n, bs_srv, bs_cli, off, oldlen, seg):
         srv.asyncio = st._AsyncioProxy(LS)
     hb.path_done("c01_e2e", kind)
     stored = st.tree_paths(server).get("/srv/f")
-    if kind == "download":
+    if kind in ("download", "download_read"):
         if got != old[off:] or back != old or stored != old:
             hb.KEY = "e2e-download"
             return False
